@@ -237,7 +237,8 @@ def gen_request(rng):
 
 
 def gen_response(rng):
-    status = rng.choice([200, 404, 100, 999, 302, 500, rng.randrange(100, 1000)])
+    # (204 / 304 / 1xx responses are "bodiless" for an HTTP client; this parser hands back whatever follows the blank line)
+    status = rng.choice([200, 404, 100, 999, 302, 500, 204, 304, 101, 205, rng.randrange(100, 1000)])
     reason = rng.choice([b"OK", b"Found", b"NotFound", bytes(rng.choice(TOKEN) for _ in range(rng.randrange(1, 12)))])
     return {"version": rng.choice([b"HTTP/1.1", b"HTTP/1.0", b"http/1.1", b"HTTP/2"]), "status": status, "reason": reason,
             "headers": gen_headers(rng), "body": gen_body(rng)}
